@@ -21,6 +21,7 @@ SPEC = {'id': 'C02',
           ('Snowflake.Tie.Broker', 'Snowflake.Tie.Broker.timeouts_positive'),
           ('Snowflake.Tie.Broker', 'Snowflake.Tie.Broker.nat_names_distinct')],
  'harness': [{'pkg': 'broker', 'test': 'TestVerifC02$', 'timeout': '12m'}],
+ 'optional_overlay': {'broker/zz_verif_core_internals_test.go': 'broker_core_internals_test.go'},
  'overlay': {'broker/zz_verif_core_test.go': 'broker_core_test.go'},
  'rule': 'cases = independent real brokers (NewBrokerContext + Broker goroutine + IPC methods) each driven through a '
          'generated quiet history (polls with generated NAT type incl. absent/empty and client counts, clients with '
